@@ -7,7 +7,8 @@
    AnnexBReader::accumulate by the correspondence check on generated NAL sequences x partitions x policies. *)
 From H264 Require Import Base.Prelude Base.Bits Model.AnnexB Model.Accum Model.Source Model.Sei Model.Avcc Model.Context Model.Pps Model.Driver
      Spec.AnnexBSpec Spec.AccumSpec Spec.Escape Spec.AvccSpec
-     Proofs.AnnexB_sem Proofs.AnnexB_compose Proofs.C08_proofs Proofs.C09_proofs Proofs.EscapeProofs Proofs.C12_frame Proofs.C12_compose.
+     Proofs.AnnexB_sem Proofs.AnnexB_compose Proofs.C08_proofs Proofs.C09_proofs Proofs.EscapeProofs Proofs.C12_frame Proofs.C12_compose Proofs.NalLevel
+     Model.BitReader Model.Sps Model.Nal Model.Slice Spec.SyntaxSps Spec.SyntaxPps Spec.SyntaxSlice Proofs.SpsInv Proofs.PpsInv Proofs.SliceInv Proofs.C14_proofs.
 Local Open Scope N_scope.
 
 (* For any sequence of NAL units (non-empty, last byte non-zero, free of 00 00 0x with x <= 2 - which is
@@ -62,6 +63,32 @@ Theorem C12_avcc : forall h spss ppss trailing,
   obind (ctx_of_sps (map ItOk spss) ctx_empty) (fun c => ctx_of_pps (map ItOk ppss) c).
 Proof. exact avcc_context. Qed.
 Print Assumptions C12_avcc.
+
+(* from the structure to the NAL unit and back through every layer: a parameter set / slice header encoded per the
+   syntax tables, completed to whole bytes, escaped (7.4.1), prefixed by the NAL header byte and handed to the parser as
+   a RefNal in ANY chunking parses to the structure (composition of C15, C02 and C04 / C05 / C06) *)
+Theorem C12_sps_nal : forall x lists k hdr head tl, wf_sps x lists ->
+  (8 | N.of_nat (length (enc_sps x lists ++ trailing_bits k))) ->
+  head <> [] -> Forall (fun ch => ch <> []) tl -> head ++ concat tl = nal_of_bits hdr (enc_sps x lists ++ trailing_bits k) ->
+  sps_from_bits (bitsrc_of_source (SrcNal true (head :: tl))) = OK x.
+Proof. exact sps_nal_roundtrip. Qed.
+Print Assumptions C12_sps_nal.
+
+Theorem C12_pps_nal : forall c p plists k hdr head tl, ctx_sps_ok c -> wf_pps c p plists ->
+  (8 | N.of_nat (length (enc_pps p plists ++ trailing_bits k))) ->
+  head <> [] -> Forall (fun ch => ch <> []) tl -> head ++ concat tl = nal_of_bits hdr (enc_pps p plists ++ trailing_bits k) ->
+  pps_from_bits c (bitsrc_of_source (SrcNal true (head :: tl))) = OK p.
+Proof. exact pps_nal_roundtrip. Qed.
+Print Assumptions C12_pps_nal.
+
+Theorem C12_slice_nal : forall c hdr pp sp h ab em data head tl, ctx_ok c -> wf_slice c hdr pp sp h ab ->
+  any_one (List.tl data) = true ->
+  (8 | N.of_nat (length (enc_slice_header hdr pp sp h ab em ++ data))) ->
+  head <> [] -> Forall (fun ch => ch <> []) tl -> head ++ concat tl = nal_of_bits hdr (enc_slice_header hdr pp sp h ab em ++ data) ->
+  slice_header_read c hdr (bitsrc_of_source (SrcNal true (head :: tl)))
+  = OK ((h, pps_seq_parameter_set_id pp, pic_parameter_set_id pp), mk_src data TEof).
+Proof. exact slice_nal_roundtrip. Qed.
+Print Assumptions C12_slice_nal.
 
 (* the links, as before *)
 Theorem C12_framing : forall cs,
